@@ -99,7 +99,17 @@ def judge(job):
 
 
 def run(ctx):
-    c14.run_with(ctx, judge, "Non-trivial = simplify() ran and removed at least one unknown.", anchored=False)
+    extra = S.dstate_jobs(ctx.tier)
+    extra_i = S.aliaseve_jobs(ctx.tier)
+    tail = (
+        "(H, C15 only) a second state d defined algebraically (d = 3 * a1 | 3 * a1 + p | a1 | -a1; der(d) = 1 - a2 | u - a2; a1 = 2 * a2 | a2 | "
+        "2 * a2 + u; der(s) = a2 + u): %d variants x all 24 orders of the equations x eliminable_variable_expression in %r x {expand_mx, "
+        "+ detect_aliases, all switches on%s} = %d cases -- eliminating d differentiates its definition and promotes a1 to a state in the "
+        "middle of the pass. (I, C15 only) eliminable_variable_expression meets recorded aliases: der(s) = a3 + u; an alias equation "
+        "only detect_aliases recognises (2*a1 - 2*a2 = 0 | a1 - a2 = 0 | a1 + a2 = 0); a1 = 2 * a3; a3 + a2 = 3 | a2 = 3 - a3: all 24 orders x "
+        "patterns a1, a2, a[12], a3, a.* x {expand_mx + detect_aliases, + iterative_simplification, all switches on} = %d cases. " % (len(S.DStateSpec.VARIANTS), S.DStateSpec.PATTERNS, ", all-on minus detect_aliases / iterative_simplification" if ctx.tier == "thorough" else "", len(extra), len(extra_i))
+    )
+    c14.run_with(ctx, judge, tail + "Non-trivial = simplify() ran and removed at least one unknown.", anchored=False, extra_jobs=extra + extra_i)
     ctx.assumptions.append("unknowns = states + algebraic states (scalars); equations = entries of dae_residual_function's output")
     ctx.assumptions.append("a non-'free variable' exception raised by simplify() itself (a refused option combination) is not judged")
 
